@@ -132,6 +132,7 @@ def snapshot(root):
         for d in ds: snap[os.path.relpath(os.path.join(r, d), root) + '/'] = 'dir'
         for f in fs:
             p = os.path.join(r, f)
+            if not os.path.isfile(p): snap[os.path.relpath(p, root)] = 'special'; continue
             with open(p, 'rb') as fh: snap[os.path.relpath(p, root)] = hashlib.sha256(fh.read()).hexdigest()
     return snap
 
@@ -179,6 +180,9 @@ def run_real(sb_dir, case, variant='v0', cwd_mode=None, loc='+loc+', keep_inputs
         elif inp['kind'] == 'file':
             os.makedirs(parent, exist_ok=True)
             with open(p, 'wb') as f: f.write(inp['content'].encode('utf-8'))
+        elif inp['kind'] == 'special':
+            os.makedirs(parent, exist_ok=True)
+            if not os.path.lexists(p): os.mkfifo(p)
         else: os.makedirs(parent, exist_ok=True)
         abs_inputs.append(p)
     results['abs_inputs'] = abs_inputs
